@@ -151,6 +151,10 @@ def rt_defs(unit):
     for k in ("VF_MAXLOC", "VF_MAXPAY"):
         if k.lower() in unit.opts:
             d.append("-D%s=%s" % (k, unit.opts[k.lower()]))
+    if unit.opts.get("spurious"):  # condition_variable::wait may return without a notification, N times per execution
+        d.append("-DVF_CV_SPURIOUS=" + unit.opts["spurious"])
+    if unit.opts.get("pause") == "nop":  # sequential unit whose code executes pause outside spin loops
+        d.append("-DVF_PAUSE_NOP")
     stubs = os.path.join(VERIF, "harness", unit.name + "_stubs.h")
     if os.path.exists(stubs):
         d += ['-DVF_UNIT_STUBS="%s"' % stubs]
@@ -500,8 +504,8 @@ def main(argv):
     errors, results, validations = [], [], []
     jobs = []
     for u in units:
-        u.obs = [o for o in u.obs if o["tier"] in tiers and (not a.only or o["name"] == a.only)]
-        if not u.obs and not [m for m in u.smts if m["tier"] in tiers and (not a.only or m["name"] == a.only)]:
+        u.obs = [o for o in u.obs if o["tier"] in tiers and (not a.only or o["name"] in a.only.split(","))]
+        if not u.obs and not [m for m in u.smts if m["tier"] in tiers and (not a.only or m["name"] in a.only.split(","))]:
             continue
         ok, msg = build_unit(u, log)
         if not ok:
@@ -519,7 +523,7 @@ def main(argv):
         if not hasattr(u, "side"):
             continue
         for sm in u.smts:
-            if sm["tier"] in tiers and (not a.only or sm["name"] == a.only):
+            if sm["tier"] in tiers and (not a.only or sm["name"] in a.only.split(",")):
                 smt_results.append((u, sm, run_smt(u, sm)))
     memkb = int(os.environ.get("VF_MEM_GB", "6" if a.tier == "quick" else "16")) * 1024 * 1024
     with cf.ThreadPoolExecutor(max_workers=a.jobs) as ex:
@@ -678,6 +682,9 @@ def main(argv):
     if inconclusive:
         for m in inconclusive:
             print("ERROR inconclusive:", m)
+        return 2
+    if not byob:
+        print("ERROR inconclusive: no obligation selected (property %s, tier %s, --only %s)" % (pid, a.tier, a.only))
         return 2
     print("OK property=%s tier=%s obligations=%d discharged=%d queries=%d wall=%.0fs" % (pid, a.tier, len(byob), discharged, queries, time.time() - t0))
     return 0
